@@ -83,6 +83,9 @@ type Event struct {
 	SelPath   string            `json:"sel_path"`
 	SelMethod string            `json:"sel_method,omitempty"`
 	SelDoc    string            `json:"sel_doc,omitempty"`
+	SelOp     string            `json:"sel_op,omitempty"`
+	SelMeta   string            `json:"sel_meta,omitempty"`
+	SelCons   []string          `json:"sel_cons,omitempty"`
 	Params    map[string]string `json:"params,omitempty"`
 }
 
@@ -112,11 +115,17 @@ func (r *Recorder) Take(id string) []Event {
 func snapshot(req *restful.Request, kind, route string) Event {
 	e := Event{Kind: kind, Route: route, SelPath: req.SelectedRoutePath()}
 	if sr := req.SelectedRoute(); sr != nil {
-		e.SelMethod, e.SelDoc = sr.Method(), sr.Doc()
+		e.SelMethod, e.SelDoc, e.SelOp = sr.Method(), sr.Doc(), sr.Operation()
+		e.SelMeta = fmt.Sprint(sr.Metadata()["verif"])
+		e.SelCons = append([]string(nil), sr.Consumes()...)
 	}
 	e.Params = map[string]string{}
 	for k, v := range req.PathParameters() {
 		e.Params[k] = v
+		// the single-name accessor reads the same binding
+		if got := req.PathParameter(k); got != v {
+			e.Params["PathParameter("+k+") differs from PathParameters()"] = got
+		}
 	}
 	return e
 }
@@ -172,6 +181,13 @@ func NewService(s model.ServiceSpec, rec *Recorder, h RouteHandler) *restful.Web
 		ws.Path(s.Root.String()[1:]) // "{tenant}/items": no leading slash
 	default:
 		ws.Path(s.Root.String())
+	}
+	if s.Docs {
+		ws.ApiVersion("1.2.3").Doc("documentation only")
+		for _, v := range s.Root.VarNames() {
+			ws.Param(ws.PathParameter(v, "a root path variable").DataType("string"))
+		}
+		ws.TypeNameHandler(func(sample interface{}) string { return "T" })
 	}
 	if s.Dynamic {
 		ws.SetDynamicRoutes(true)
@@ -233,24 +249,91 @@ func RoutePathForm(t model.Template, form int) string {
 	return s
 }
 
+// Builder-call styles of a route (RouteSpec.Style, a bit set). None of them changes what is
+// declared; they are the different ways users write the same declaration.
+const (
+	StyleConvenience = 1  // ws.GET(path) … ws.OPTIONS(path) where the method has such a function
+	StyleLateHead    = 2  // function, conditions, filters, media types first; Method and Path last
+	StyleDocs        = 4  // documentation-only calls (Operation, Notes, Param, Reads, Writes, Returns, Metadata, Deprecate, Do)
+	StyleOverwrite   = 8  // Method, Path, Consumes, Produces are first set to decoys and then to the real values
+	StyleExtraBuild  = 16 // Build() is called once by the user before the builder is handed to Route
+)
+
+type docSample struct {
+	Name string `json:"name" xml:"name"`
+}
+
+var convenience = map[string]func(*restful.WebService, string) *restful.RouteBuilder{
+	"GET":     (*restful.WebService).GET,
+	"POST":    (*restful.WebService).POST,
+	"PUT":     (*restful.WebService).PUT,
+	"PATCH":   (*restful.WebService).PATCH,
+	"DELETE":  (*restful.WebService).DELETE,
+	"HEAD":    (*restful.WebService).HEAD,
+	"OPTIONS": (*restful.WebService).OPTIONS,
+}
+
 // NewRoute creates the RouteBuilder for a route spec.
 func NewRoute(ws *restful.WebService, r model.RouteSpec, rec *Recorder, h RouteHandler) *restful.RouteBuilder {
 	if h == nil {
 		h = DefaultHandler
 	}
 	id := r.ID
-	rb := ws.Method(r.Method).Path(RoutePathForm(r.Path, r.PathForm)).Doc(id)
-	if len(r.Consumes) > 0 {
-		rb.Consumes(r.Consumes...)
+	path := RoutePathForm(r.Path, r.PathForm)
+	var rb *restful.RouteBuilder
+	headDone := false
+	switch {
+	case r.Style&StyleLateHead != 0:
+		rb = ws.PUT("/decoy-" + id)
+	case r.Style&StyleConvenience != 0 && convenience[r.Method] != nil:
+		rb = convenience[r.Method](ws, path)
+		headDone = true
+	default:
+		rb = ws.Method(r.Method).Path(path)
+		headDone = true
 	}
-	if len(r.Produces) > 0 {
-		rb.Produces(r.Produces...)
-	}
-	if len(r.NoCT) > 0 {
-		rb.AllowedMethodsWithoutContentType(r.NoCT)
+	rb.Doc(id)
+	if r.Style&StyleOverwrite != 0 {
+		// the last call of a setter is the one that counts
+		rb.Method("TRACE").Path("/decoy/{overwritten}")
+		headDone = false
+		if len(r.Consumes) > 0 {
+			rb.Consumes("application/x-decoy").Consumes(r.Consumes...)
+		}
+		if len(r.Produces) > 0 {
+			rb.Produces("application/x-decoy").Produces(r.Produces...)
+		}
+		if len(r.NoCT) > 0 {
+			rb.AllowedMethodsWithoutContentType([]string{"TRACE", "POST", "PUT", "PATCH"}).AllowedMethodsWithoutContentType(r.NoCT)
+		}
+	} else {
+		if len(r.Consumes) > 0 {
+			rb.Consumes(r.Consumes...)
+		}
+		if len(r.Produces) > 0 {
+			rb.Produces(r.Produces...)
+		}
+		if len(r.NoCT) > 0 {
+			rb.AllowedMethodsWithoutContentType(r.NoCT)
+		}
 	}
 	if r.Enc != nil {
 		rb.ContentEncodingEnabled(*r.Enc)
+	}
+	if r.Style&StyleDocs != 0 {
+		rb.Operation("op-"+id).Notes("notes "+id).Metadata("verif", id).AddExtension("x-verif", id)
+		for _, v := range r.Path.VarNames() {
+			rb.Param(ws.PathParameter(v, "a path variable").DataType("string"))
+		}
+		rb.Param(ws.QueryParameter("q", "a query parameter").Required(false)).
+			Param(ws.HeaderParameter("X-Doc", "a header parameter")).
+			Reads(docSample{}).Writes(docSample{}).
+			Returns(200, "OK", docSample{}).Returns(404, "Not Found", nil).
+			DefaultReturns("default", docSample{}).
+			Do(func(b *restful.RouteBuilder) { b.ReturnsError(500, "Internal Server Error", nil) })
+		if len(id)%2 == 0 {
+			rb.Deprecate()
+		}
 	}
 	for _, c := range r.Conds {
 		c := c
@@ -267,6 +350,12 @@ func NewRoute(ws *restful.WebService, r model.RouteSpec, rec *Recorder, h RouteH
 		rec.add(req.Request.Header.Get(ReqIDHeader), snapshot(req, "h", id))
 		h(id, req, resp)
 	})
+	if !headDone {
+		rb.Method(r.Method).Path(path)
+	}
+	if r.Style&StyleExtraBuild != 0 {
+		_ = rb.Build()
+	}
 	return rb
 }
 
